@@ -299,6 +299,19 @@ pub fn run(ctx: &Ctx) {
         |i| Case { a: s[(i / n) as usize].clone(), b: s[(i % n) as usize].clone() },
         run_case,
     );
+    // the same order structures at other magnitudes: fractions below 1, equal integer parts, beyond 2^32, denormal/huge
+    // (the code may only COMPARE speeds; anything that rounds, truncates or saturates them shows here)
+    let scales: [[f32; 3]; 5] = [[0.0, 0.25, 0.75], [0.5, 1.25, 1.75], [4.0e9, 5.0e9, 9.0e9], [1.0e-30, 312.5, 312.50003], [600.0, 3.0e38, 3.4e38]];
+    let mut scaled = vec![];
+    for sc in &scales {
+        let ss: Vec<Side> = sides(&sc[..]).into_iter().filter(|x| !x.plain && x.speeds.iter().filter(|v| v.is_some()).count() >= ctx.tier.pick(3, 2)).collect();
+        for (i, a) in ss.iter().enumerate() {
+            for b in &ss[i..] {
+                scaled.push(Case { a: a.clone(), b: b.clone() });
+            }
+        }
+    }
+    sweep_list(ctx, "speed_magnitudes", &scaled, SweepOpts { trivial_classes: vec![0], chunk: 8, ..Default::default() }, run_case);
     let mut edits = vec![];
     let vals: Vec<u8> = if ctx.tier == Tier::Quick { vec![0, 1, 2, 3, 4, 0x3f, 0x40, 0x7f, 0x80, 0xff] } else { (0..=255).collect() };
     for offset in -1..15 {
@@ -322,6 +335,9 @@ pub fn run(ctx: &Ctx) {
 }
 
 pub fn replay(family: &str, case: &Value) -> Option<CaseResult> {
+    if family == "speed_magnitudes" {
+        return replay_with::<Case>(case, run_case);
+    }
     match family {
         "pairs" => replay_with::<Case>(case, run_case),
         "list_edits" => replay_with::<EditCase>(case, run_edit),
